@@ -57,7 +57,6 @@ fn program_family(rep: &mut Report, viols: &Mutex<Vec<Viol>>, machinery: &Mutex<
                     let out = eval_case(&prop, &text, oi == 0, thorough);
                     if let Some(m) = &out.machinery {
                         machinery.lock().unwrap().push(m.clone());
-                        continue;
                     }
                     *local_tags.entry(if out.tag.starts_with("ok:") { "ok".to_string() } else { out.tag.split("/len").next().unwrap_or("").to_string() }).or_default() += 1;
                     for n in &out.notes {
